@@ -2504,8 +2504,8 @@ impl Typer {
             hir::Pat::PVar { name, astptr } => {
                 self.check_pat_var(local_env, diagnostics, name, Some(astptr), ty)
             }
-            hir::Pat::PUnit => self.check_pat_unit(),
-            hir::Pat::PBool { value } => self.check_pat_bool(value),
+            hir::Pat::PUnit => self.check_pat_unit(ty),
+            hir::Pat::PBool { value } => self.check_pat_bool(value, ty),
             hir::Pat::PInt { value } => self.check_pat_int(diagnostics, &value, ty),
             hir::Pat::PInt8 { value } => {
                 self.check_pat_typed_int(diagnostics, &value, &tast::Ty::TInt8, ty)
@@ -2565,14 +2565,16 @@ impl Typer {
         }
     }
 
-    fn check_pat_unit(&self) -> tast::Pat {
+    fn check_pat_unit(&mut self, ty: &tast::Ty) -> tast::Pat {
+        self.push_constraint(Constraint::TypeEqual(tast::Ty::TUnit, ty.clone()));
         tast::Pat::PPrim {
             value: Prim::Unit { value: () },
             ty: tast::Ty::TUnit,
         }
     }
 
-    fn check_pat_bool(&self, value: bool) -> tast::Pat {
+    fn check_pat_bool(&mut self, value: bool, ty: &tast::Ty) -> tast::Pat {
+        self.push_constraint(Constraint::TypeEqual(tast::Ty::TBool, ty.clone()));
         tast::Pat::PPrim {
             value: Prim::boolean(value),
             ty: tast::Ty::TBool,
